@@ -1,5 +1,128 @@
-"""Self-validation of the checker (thorough tier): kill matrix, silence battery. Filled in later."""
+"""Self-validation of the checker (thorough tier): kill matrix and silence battery.
+
+Variants are single edits of the *current* sources held in memory (never written to disk); each
+must still compile. A kill variant is labelled with the properties it breaks: the check of each
+such property must report a finding. A silence variant preserves behaviour: every check must
+stay silent and must not give up (no ANALYSIS-ERROR). A failure of either battery means the
+checker is wrong -> AnalysisError (exit 2), never a VIOLATION.
+
+An edit whose anchor text is no longer present in the tree (because /repo changed) is reported
+as 'stale' and skipped - the batteries describe today's code."""
+import ast
+import os
+import sys
+import time
+
+from . import AnalysisError
+from .model import Repo
+from .flow import clear_cache
+from .variants import KILL, SILENT
+
+P = 'py_stringsimjoin/'
 
 
-def run_for_property(prop, ctx):
-    return {}
+def apply_edit(sources, edits):
+    """edits: list of (relpath, old, new[, count]) -> new sources dict or None when stale"""
+    out = dict(sources)
+    for ed in edits:
+        rel, old, new = ed[0], ed[1], ed[2]
+        want = ed[3] if len(ed) > 3 else 1
+        src = out.get(P + rel if not rel.startswith(P) else rel)
+        key = P + rel if not rel.startswith(P) else rel
+        if src is None or src.count(old) != want:
+            return None
+        out[key] = src.replace(old, new)
+    for key in out:
+        if out[key] is not sources.get(key):
+            try:
+                compile(out[key], key, 'exec', dont_inherit=True)
+            except SyntaxError as e:
+                raise AnalysisError('self-test variant does not compile: %s: %s' % (key, e))
+    return out
+
+
+def run_variant(prop, sources):
+    from .__main__ import run_property
+    clear_cache()
+    repo = Repo(sources)
+    ctx, err = run_property(prop, 'quick', repo=repo)
+    return ctx, err
+
+
+def run_for_property(prop, ctx0, verbose=False, jobs=None):
+    """Kill variants labelled with `prop` must be reported by prop's check; silence variants must
+    leave prop's check silent. Returns coverage extras for the evidence."""
+    base = ctx0.repo.sources
+    killed, missed, stale = [], [], []
+    t0 = time.time()
+    for vid, edits, props, note in KILL:
+        if prop not in props:
+            continue
+        src = apply_edit(base, edits)
+        if src is None:
+            stale.append(vid)
+            continue
+        c, err = run_variant(prop, src)
+        # an ANALYSIS-ERROR on a broken variant is accepted as "not silently passed" but recorded separately
+        if c.findings:
+            killed.append({'variant': vid, 'reported': sorted(set(f.rule for f in c.findings))[:4]})
+        elif err:
+            killed.append({'variant': vid, 'reported': ['ANALYSIS-ERROR (undecided, not a pass)']})
+        else:
+            missed.append(vid)
+        if verbose:
+            print('  kill %-40s %s' % (vid, 'KILLED ' + ','.join(sorted(set(f.rule for f in c.findings))[:3]) if c.findings
+                                       else ('ERROR ' + err.split('\n')[0][:80] if err else 'MISSED')))
+    loud, quiet = [], []
+    for vid, edits, note in SILENT:
+        src = apply_edit(base, edits)
+        if src is None:
+            stale.append(vid)
+            continue
+        c, err = run_variant(prop, src)
+        if c.findings or err:
+            loud.append({'variant': vid, 'reported': [f.rule + ' ' + f.key for f in c.findings][:3], 'error': (err or '')[:200]})
+        else:
+            quiet.append(vid)
+        if verbose:
+            print('  silent %-38s %s' % (vid, 'quiet' if not (c.findings or err) else 'LOUD ' + str([f.rule for f in c.findings][:3]) + (err or '')[:100]))
+    clear_cache()
+    extra = {
+        'selftest_kill': {'killed': len(killed), 'missed': missed, 'total': len(killed) + len(missed), 'samples': killed[:12]},
+        'selftest_silence': {'quiet': len(quiet), 'loud': loud, 'total': len(quiet) + len(loud)},
+        'selftest_stale_variants': stale,
+        'selftest_wall_s': round(time.time() - t0, 2),
+    }
+    if loud:
+        raise AnalysisError('silence battery: behaviour-preserving variants raise an alarm for %s: %s' % (prop, loud[:3]))
+    if missed:
+        raise AnalysisError('kill matrix: variants breaking %s are not reported: %s' % (prop, missed))
+    return extra
+
+
+def main():
+    import warnings
+    warnings.simplefilter('ignore')
+    sys.setrecursionlimit(10000)
+    from .props import PROPS
+    from .__main__ import run_property
+    root = os.environ.get('SSJLINT_REPO', '/repo')
+    base = Repo.load_sources(root)
+    only = sys.argv[1:] or sorted(PROPS)
+    bad = 0
+    for prop in only:
+        ctx0, err = run_property(prop, 'quick', repo=Repo(base))
+        print('== %s (%d findings on the tree%s)' % (prop, len(ctx0.findings), ', ' + err if err else ''))
+        try:
+            ex = run_for_property(prop, ctx0, verbose=True)
+            print('   killed %d/%d, quiet %d/%d, stale %s' % (ex['selftest_kill']['killed'], ex['selftest_kill']['total'],
+                                                            ex['selftest_silence']['quiet'], ex['selftest_silence']['total'],
+                                                            ex['selftest_stale_variants']))
+        except AnalysisError as e:
+            print('   SELFTEST FAILED: %s' % e)
+            bad = 1
+    return bad
+
+
+if __name__ == '__main__':
+    sys.exit(main())
